@@ -339,7 +339,46 @@ def step_forms(repo):
     return list(forms.items())
 
 
-def go_stubs(forms, outdir):
+SETCC = {"JEQ": "SETEQ", "JZ": "SETEQ", "JNE": "SETNE", "JNZ": "SETNE", "JB": "SETCS", "JBE": "SETLS", "JA": "SETHI",
+         "JAE": "SETCC", "JLT": "SETLT", "JLE": "SETLE", "JLS": "SETLS", "JHI": "SETHI"}
+
+
+def jump_forms(repo):
+    """(flag-setting instruction immediately before a conditional jump, the jump): distinct pairs over bodies and wrappers.
+    A conditional jump whose predecessor is not a register-to-register form of the modelled subset (the CPU-feature tests)
+    is skipped."""
+    pairs = {}
+    for f, sym in BODIES + WRAPPERS:
+        cur, prev = "", None
+        for raw in open(os.path.join(repo, f), encoding="utf-8"):
+            line = raw.split("//")[0].strip()
+            if not line or line.startswith("#"):
+                continue
+            m = re.match(r"TEXT\s+([^\s(]+)\(SB\)", line)
+            if m:
+                cur, prev = m.group(1).replace("\u00b7", "").replace("<>", ""), None
+                continue
+            if cur != sym:
+                continue
+            if re.match(r"^([A-Za-z_][\w]*):$", line):
+                prev = None
+                continue
+            parts = line.split(None, 1)
+            if parts[0] == "PCALIGN":
+                continue
+            ops = parts[1] if len(parts) > 1 else ""
+            if parts[0] in SETCC and prev is not None:
+                jast = '.%s "L"' % parts[0]
+                pairs.setdefault((prev[0], jast), (prev[1], parts[0]))
+            try:
+                ast = instr_ast(parts[0], ops)
+                prev = None if ast.startswith(SKIP_FORMS) else (ast, (parts[0] + " " + re.sub(r"\s+", " ", ops)).strip())
+            except ValueError:
+                prev = None
+    return [(k[0], k[1], v[0], v[1]) for k, v in pairs.items()]
+
+
+def go_stubs(forms, outdir, jumps=()):
     """one assembly stub per instruction form: load the whole register state from *State, execute the instruction exactly as
     written in the kernel source, store ZF / CF / signed-less and the whole state back"""
     s = ["// Code generated by /verif/tools/asmfacts.py from the repository's .s files. DO NOT EDIT.",
@@ -367,15 +406,39 @@ def go_stubs(forms, outdir):
         s.append("\tVZEROUPPER")
         s.append("\tRET")
         s.append("")
+    for n, (sast, jast, stxt, jm) in enumerate(jumps):
+        s.append("// %s ; %s" % (sast, jast))
+        s.append("TEXT \u00b7jump%d(SB), NOSPLIT, $0-8" % n)
+        s.append("\tMOVQ st+0(FP), R15")
+        for k in range(6):
+            s.append("\tVMOVDQU %d(R15), Y%d" % (160 + 32 * k, k + 1))
+        for k in range(3):
+            s.append("\tMOVOU %d(R15), X%d" % (96 + 16 * k, k))
+        for k, r in enumerate(GPRS):
+            s.append("\tMOVQ %d(R15), %s" % (8 * k, r))
+        s.append("\t" + stxt)
+        s.append("\t%s 355(R15)" % SETCC[jm])
+        s.append("\tVZEROUPPER")
+        s.append("\tRET")
+        s.append("")
     g = ["// Code generated by /verif/tools/asmfacts.py from the repository's .s files. DO NOT EDIT.",
          "//go:build amd64", "", "package main", ""]
     for n in range(len(forms)):
         g.append("//go:noescape")
         g.append("func form%d(st *State)" % n)
+    for n in range(len(jumps)):
+        g.append("//go:noescape")
+        g.append("func jump%d(st *State)" % n)
     g.append("")
     g.append("var forms = []form{")
     for n, (ast, txt) in enumerate(forms):
         g.append("\t{%s, %s, form%d}," % (json_str(txt), json_str(ast), n))
+    g.append("}")
+    g.append("")
+    g.append("// (flag-setting instruction ; conditional jump that follows it in the source): is the jump taken?")
+    g.append("var jumps = []form{")
+    for n, (sast, jast, stxt, jm) in enumerate(jumps):
+        g.append("\t{%s, %s, jump%d}," % (json_str(stxt + " ; " + jm), json_str(sast + " ; " + jast), n))
     g.append("}")
     for name, lines in (("forms_amd64.s", s), ("forms_amd64.go", g)):
         text = "\n".join(lines) + "\n"
@@ -441,8 +504,13 @@ def main():
     w.append("/-- the distinct register-to-register instruction forms of the bodies and wrappers (source text, term), in first-use order: the")
     w.append("    stubs of harness/cmd/asmstep execute each on the hardware, the driver op `step` runs `Asm.step` on the same state -/")
     w.append("def stepForms : Array (String \u00d7 _root_.Asm.Instr) := #[%s]" % ", ".join('(%s, %s)' % (json_str(txt), ast) for ast, txt in forms))
+    jumps = jump_forms(repo)
+    w.append("open _root_.Asm.Instr _root_.Asm.Reg _root_.Asm.XReg _root_.Asm.YReg in")
+    w.append("/-- (source text, flag-setting instruction, conditional jump that immediately follows it in the source): distinct pairs -/")
+    w.append("def jumpForms : Array (String \u00d7 _root_.Asm.Instr \u00d7 _root_.Asm.Instr) := #[%s]" %
+             ", ".join('(%s, %s, %s)' % (json_str(stxt + " ; " + jm), sast, jast) for sast, jast, stxt, jm in jumps))
     if len(sys.argv) > 3:
-        go_stubs(forms, sys.argv[3])
+        go_stubs(forms, sys.argv[3], jumps)
     w.append("/-- (program of the pre-go1.22 file, program of the go1.22 file) for every body and wrapper -/")
     w.append("def pre122_pairs : List (_root_.Asm.Prog × _root_.Asm.Prog) := [%s]" % ", ".join("(%s, %s)" % p for p in pairs))
     w.append("end Gen.Asm")
